@@ -112,7 +112,7 @@ function genOpExpr (rng, ctx, d, label, nested) {
     if (d > 0 && P.known && rng.chance(1, 8)) {
       // a function expression passed as an argument inside the instrumented expression, called back
       // synchronously; its parameter default holds an instrumented operation of its own
-      return { t: 'fnarg', site: P.nextSite++, def: genOpExpr(rng, ctx, 0, 'param-default:function-expression-argument', true) }
+      return { t: 'fnarg', site: P.nextSite++, def: genOpExpr(rng, { ...ctx, f: { isGen: false, isAsync: false } }, 0, 'param-default:function-expression-argument', true) }
     }
     if (d > 0 && rng.chance(1, 3)) return genOpExpr(rng, ctx, d - 1, label, true)
     if (f.isGen && rng.chance(1, 3)) return { t: 'yield', site: P.nextSite++ }
@@ -121,7 +121,19 @@ function genOpExpr (rng, ctx, d, label, nested) {
   }
   const id = P.nextOp++
   // an optional chain may yield undefined: only as a stand-alone operation, never as an operand
-  switch (rng.below(nested ? 7 : 8)) {
+  const pickOp = rng.below(nested ? 8 : 10)
+  if (pickOp === 7) {
+    // a configured method that may be called without a callee: aloneMethod(arg, arg, ...)
+    const n = rng.range(1, 3)
+    const args = []
+    for (let i = 0; i < n; i++) args.push(operand())
+    return { t: 'alone', id, label, args }
+  }
+  if (pickOp === 9 && !nested) {
+    // optional call on a non-member callee followed by a configured method: f?.(arg).trim()
+    return { t: 'optfn', id, label, site: P.nextSite++, arg: { t: 'probe', site: P.nextSite++ }, m: rng.pick(['trim', 'trimEnd']) }
+  }
+  switch (pickOp === 8 ? 7 : pickOp) {
     case 0: case 1: case 2: {
       const n = rng.range(2, 3)
       const ops = []
@@ -173,6 +185,8 @@ function render (P) {
     switch (e.t) {
       case 'probe': case 'yield': case 'await': case 'fnarg': return [[e.site]]
       case 'optcall': return [[e.site]]
+      case 'optfn': return [[e.arg.site]]
+      case 'alone': return cat(e.args.map(altsOf))
       case 'cond': return altsOf(e.cons).concat(altsOf(e.alt))
       case 'plus': case 'tpl': return cat(e.ops.map(altsOf))
       case 'call': return cat([altsOf(e.recv)].concat(e.args.map(altsOf)))
@@ -224,6 +238,15 @@ function render (P) {
         if (e.form === 'proto-apply') return `String.prototype.${e.m}.apply(${r}, [${args.join(', ')}])`
         if (e.form === 'spread') return `${needParen ? `(${r})` : r}.${e.m}(...[${args.join(', ')}])`
         return `${needParen ? `(${r})` : r}.${e.m}(${args.join(', ')})`
+      }
+      case 'alone': {
+        const args = e.args.map(o => ex(o, A))
+        reg(e, 'aloneMethod', null, e.label)
+        return `aloneMethod(${args.join(', ')})`
+      }
+      case 'optfn': {
+        reg(e, 'trim', null, e.label)
+        return `$.q(${A}, ${e.site})?.(${ex(e.arg, A)}).${e.m}()`
       }
       case 'optcall': {
         reg(e, 'trim', [e.site], e.label)
@@ -390,6 +413,7 @@ function render (P) {
 
   lines.push(P.strict ? "'use strict';" : '// sloppy mode')
   lines.push('module.exports = function factory($) {')
+  lines.push('  const aloneMethod = (...parts) => parts.join("");')
   for (const f of P.funcs) func(f, false)
   lines.push('};')
   return { text: lines.join('\n') + '\n', ops, sites, names }
